@@ -9,10 +9,10 @@ def plan(tier, seed):
     hs = [H("c05::" + n, "binary::binary on a symbolic Number vs shift-based nearest-even oracle (lossy symbolic)", "all 64-bit mantissas, exponents covering zero/subnormal/normal/inf") for n in names]
     hx = [H("c05::hexparse_f64", "public API on hex strings d{1,3}^[-]ddd vs oracle", "mantissa 1..3 hex digits, exponent 3 hex digits"),
           H("c05::hexparse_f32", "", "mantissa 1..3 hex digits, exponent 3 hex digits")]
-    groups = [KGroup("P", hs, timeout=900, jobs=8, mem_gb=8, label="binary() kernel")]
+    groups = [KGroup("P", hs, timeout=900, jobs=8, mem_gb=14, label="binary() kernel")]
     if tier == "thorough":
         groups.append(KGroup("P", hx, timeout=7200, jobs=2, mem_gb=12, label="end to end hex strings"))
-        groups.append(KGroup("R", hs[:4], timeout=900, jobs=4, mem_gb=8, label="binary() kernel, radix feature"))
+        groups.append(KGroup("R", hs[:4], timeout=900, jobs=4, mem_gb=14, label="binary() kernel, radix feature"))
     return {
         "kani": groups,
         "functions_encoded": ["lexical_parse_float::binary::binary", "shared::{calculate_power2,calculate_shift,round,round_nearest_tie_even}", "float::extended_to_float"],
